@@ -90,6 +90,31 @@ def edit_cases():
     fa = copy.deepcopy(fb)
     fa["workplaces"][0]["facilities"][0]["absence"] = [2, 3]
     out.append((fb, fa, "facility-absence-inplace"))
+    # a finish-to-finish / start-to-finish link added at a stop: T2 (2 units, own worker) is out of work long before T0 (6 units) ends
+    for kind in ("FF", "SF"):
+        lk = {"tasks": [{"name": "T0", "work": 6.0 if kind == "FF" else 2.0}, {"name": "T1", "work": 1.0}, {"name": "T2", "work": 2.0}], "links": [[1, 0, "FS"]] if kind == "SF" else [],
+              "teams": [{"name": "TM0", "targets": [0, 1], "workers": [{"name": "W0", "skills": {"T0": 1.0, "T1": 1.0}, "cost": 1.0}]},
+                        {"name": "TM1", "targets": [2], "workers": [{"name": "W1", "skills": {"T2": 1.0}, "cost": 2.0}]}]}
+        lk2 = copy.deepcopy(lk)
+        lk2["links"] = list(lk["links"]) + [[0, 2, kind]]
+        out.append((lk, lk2, "add-%s-link" % kind.lower()))
+    # a machine moved into the workplace that needs it (its former workplace serves nothing) ...
+    mi = {"tasks": [{"name": "T0", "work": 3.0, "nf": True}, {"name": "T1", "work": 1.0}], "links": [], "components": [{"name": "C0", "tasks": [0]}],
+          "workplaces": [{"name": "WP0", "cap": 1.0, "targets": [0], "facilities": []}, {"name": "WP1", "cap": 1.0, "targets": [], "facilities": [{"name": "F1", "skills": {"T0": 1.0}, "cost": 2.0}]}],
+          "teams": [{"name": "TM0", "targets": [0, 1], "workers": [{"name": "W0", "skills": {"T0": 1.0, "T1": 1.0}, "fskills": {"F1": 1.0}, "cost": 1.0}, {"name": "W1", "skills": {"T0": 1.0}, "fskills": {"F1": 1.0}, "cost": 1.0}]}]}
+    mi2 = copy.deepcopy(mi)
+    mi2["workplaces"][0]["facilities"].append(mi2["workplaces"][1]["facilities"].pop(0))
+    out.append((mi, mi2, "move-facility-in"))
+    # ... and a machine moved OUT of the workplace that is assigned to its task, into the workplace where the component gets stuck (the hall is full)
+    mo = {"tasks": [{"name": "T0", "work": 2.0, "nf": True}, {"name": "T1", "work": 2.0, "nf": True}, {"name": "T2", "work": 9.0, "nf": True}], "links": [[0, 1, "FS"]],
+          "components": [{"name": "C0", "tasks": [0, 1], "space": 1.0}, {"name": "C2", "tasks": [2], "space": 1.0}],
+          "workplaces": [{"name": "WP0", "cap": 1.0, "targets": [1, 2], "facilities": [{"name": "F1", "skills": {"T1": 1.0}, "cost": 1.0}, {"name": "F2", "skills": {"T2": 1.0, "T1": 1.0}, "cost": 1.0}]},
+                         {"name": "WP1", "cap": 1.0, "targets": [0], "facilities": [{"name": "F0", "skills": {"T0": 1.0}, "cost": 1.0}]}],
+          "teams": [{"name": "TM0", "targets": [0, 1, 2], "workers": [{"name": "W0", "skills": {"T0": 1.0, "T1": 1.0}, "fskills": {"F0": 1.0, "F1": 1.0, "F2": 1.0}, "cost": 1.0},
+                                                                     {"name": "W1", "skills": {"T2": 1.0}, "fskills": {"F2": 1.0}, "cost": 1.0}]}]}
+    mo2 = copy.deepcopy(mo)
+    mo2["workplaces"][1]["facilities"].append(mo2["workplaces"][0]["facilities"].pop(0))
+    out.append((mo, mo2, "move-facility-out"))
     # rates agreed at a stop: nobody in the team / workplace is paid at the start; the second task's worker and machine get their rates before that task begins
     rz = {"tasks": [{"name": "T0", "work": 4.0}, {"name": "T1", "work": 3.0, "nf": True}], "links": [[0, 1, "FS"]], "components": [{"name": "C0", "tasks": [1]}],
           "workplaces": [{"name": "WP0", "cap": 1.0, "targets": [1], "facilities": [{"name": "F0", "skills": {"T1": 1.0}, "cost": 0.0}]}],
@@ -163,6 +188,18 @@ def apply_edit(m, name):
         w = m.byname["W1"]
         m.byname["TM1"].worker_list.remove(w)
         m.byname["TM0"].add_worker(w)
+    elif name in ("add-ff-link", "add-sf-link"):
+        from pDESy.model.base_task import BaseTaskDependency
+
+        m.byname["T2"].append_input_task(m.byname["T0"], task_dependency_mode=BaseTaskDependency.FF if name == "add-ff-link" else BaseTaskDependency.SF)
+    elif name == "move-facility-in":
+        f = m.byname["F1"]
+        m.byname["WP1"].facility_list.remove(f)
+        m.byname["WP0"].add_facility(f)
+    elif name == "move-facility-out":
+        f = m.byname["F1"]
+        m.byname["WP0"].facility_list.remove(f)
+        m.byname["WP1"].add_facility(f)
     elif name == "set-rates":
         m.byname["W1"].cost_per_time = 8.0
         m.byname["F0"].cost_per_time = 5.0
